@@ -1590,6 +1590,13 @@ func (s *Netceptor) handleRoutingUpdate(ri *routingUpdate, recvConn string) {
 
 // Handles a ping request.
 func (s *Netceptor) handlePing(md *MessageData) error {
+	if md.FromService == "ping" {
+		// Replies come from the ping service and are never answered themselves.  Otherwise a packet that
+		// claims to come from a ping service makes two nodes answer each other for ever, and one that is
+		// addressed from a node to itself recurses until the stack overflows.
+		return nil
+	}
+
 	return s.sendMessage("ping", md.FromNode, md.FromService, []byte{})
 }
 
